@@ -258,7 +258,9 @@ def r2(ctx, res):
               reason="`source` is omitted only when it is what binding would infer anyway")
     res.judge(True if (has("self.__class__.__name__.lstrip('_')", pr) or has("type(self).__name__.lstrip('_')", pr)) else None, pr,
               "class name without the leading underscore", reason="the public constructor name `Property` is printed")
-    res.judge(True if (has(f"repr({ra})", pr)) else None, pr, "repr(repr_args)", reason="arguments rendered by Args.__repr__")
+    bang_r = any(isinstance(n, ast.FormattedValue) and n.conversion == 114 and norm(n.value) == ra and n.format_spec is None
+                 for n in walk_own(pr.body))  # f"{repr_args!r}" is repr(repr_args)
+    res.judge(True if (has(f"repr({ra})", pr) or bang_r) else None, pr, "repr(repr_args)", reason="arguments rendered by Args.__repr__")
 
 
 @rule("R4", "a property wrapper's repr, evaluated on its own, rebuilds an equal wrapper")
@@ -571,7 +573,11 @@ def n3(ctx, res):
     if not calls:
         raise AnalysisError("_parse_object no longer builds the class with ObjectMeta(title, ...)")
     name_arg = calls[0].args[0]
-    guard_funcs = [g for g in ctx.prog.all_funcs() if g.module is po.module and g.name in ("_class_name", "_parse_class_name", "_safe_title")]
+    guard_funcs = []
+    for gname in ("_class_name", "_parse_class_name", "_safe_title"):
+        r_ = ctx.prog.resolve_in(po, gname)  # defined in the parser or imported into it from another repository module
+        if r_ and r_[0] == "func" and hasattr(r_[1], "body") and r_[1] not in guard_funcs:
+            guard_funcs.append(r_[1])
     guarded = False
     detail = {}
     for g in guard_funcs:
